@@ -24,6 +24,7 @@ structure RStore where
   statusSet : ExtTreeSet Nat := ∅             -- servers:status:<bit>: member (addr, bit) encoded addr*16+bitIndex
   locks : ExtTreeMap Nat LockCell := ∅        -- servers:lock:<addr>
   lockVer : ExtTreeMap Nat Nat := ∅           -- ghost: modification counter of each lock key (what WATCH observes)
+  lockLast : ExtTreeMap Nat (Option Nat) := ∅ -- ghost: what the last modification of each lock key wrote (token or deletion)
   insItems : ExtTreeMap Nat Addr := ∅         -- instances:items    id ↦ address
   insUpdated : ExtTreeMap Nat Int := ∅        -- instances:updated  id ↦ score
   pItems : ExtTreeMap Nat (Probe × GoTime) := ∅  -- probes:items    id ↦ (probe, expires)
@@ -67,25 +68,29 @@ def removeBatch (st : RStore) (k : Nat) : RStore :=
 
 def verOf (st : RStore) (k : Nat) : Nat := (st.lockVer[k]?).getD 0
 
-def bumpVer (st : RStore) (k : Nat) : RStore := { st with lockVer := st.lockVer.insert k (st.verOf k + 1) }
+/-- a modification of lock key `k` that writes `w` (`some token` or deletion): bumps the WATCH version -/
+def touchLock (st : RStore) (k : Nat) (w : Option Nat) : RStore :=
+  { st with lockVer := st.lockVer.insert k (st.verOf k + 1), lockLast := st.lockLast.insert k w }
+
+def lastOf (st : RStore) (k : Nat) : Option Nat := (st.lockLast[k]?).getD none
 
 /-- `SET key token NX EX`: succeeds iff the key is absent; always sets a TTL -/
 def lockSetNX (st : RStore) (k tok : Nat) : RStore × Bool :=
   match st.locks[k]? with
   | some _ => (st, false)
-  | none => ({ st.bumpVer k with locks := st.locks.insert k ⟨tok, true⟩ }, true)
+  | none => ({ st.touchLock k (some tok) with locks := st.locks.insert k ⟨tok, true⟩ }, true)
 
 /-- `DEL key` -/
 def lockDel (st : RStore) (k : Nat) : RStore :=
   match st.locks[k]? with
   | none => st
-  | some _ => { st.bumpVer k with locks := st.locks.erase k }
+  | some _ => { st.touchLock k none with locks := st.locks.erase k }
 
 /-- the lease expires: key removed; `dirties` = whether expiry invalidates watchers (Redis ≥ 6.0.9, miniredis) -/
 def lockExpire (st : RStore) (k : Nat) (dirties : Bool) : RStore :=
   match st.locks[k]? with
   | none => st
-  | some _ => if dirties then { st.bumpVer k with locks := st.locks.erase k } else { st with locks := st.locks.erase k }
+  | some _ => if dirties then { st.touchLock k none with locks := st.locks.erase k } else { st with locks := st.locks.erase k }
 
 /-- instances `Add`: HSET + ZADD -/
 def insAddBatch (st : RStore) (id : Nat) (a : Addr) (now : Int) : RStore :=
